@@ -43,6 +43,39 @@ def contracts():
         target=f"{RS}::ResultSerializer._deref_paths_name", interface=True, types={"paths_name": "str"},
         ensures={"deref": "result == ufun_str('deref', paths_name)"}, returns="str", class_fields=CF,
         assumptions=["_deref_paths_name strips '$', datatype and '#id' from a reference (string slicing; bounded in C12)"]))
+    # ---- the serializer writes a member's files under the run directory the run fixed at its start, nowhere else
+    CF["Result"] = {**CF.get("Result", {}), "_run_dir": "str", "_run_time": "val", "_paths_name": "str", "_file_name": "str", "run_index": "int", "_unmatched": "val",
+                    "_errors": "list[val]", "_printouts": "val", "g_identity_or_index": "str", "g_lines": "val", "_csvpath": "obj:CsvPath"}
+    CF["ResultSerializer"].update({"g_save_calls": "int", "g_saved_run_dir": "str", "g_saved_identity": "str", "g_saved_paths_name": "str", "result": "val"})
+    cs.append(Contract(target=f"{RS}::ResultSerializer._save", interface=True, variant="logged",
+                       types={"metadata": "val", "runtime_data": "val", "errors": "val", "variables": "val", "lines": "val", "printouts": "val", "paths_name": "str",
+                              "file_name": "val", "identity": "str", "run_time": "val", "run_dir": "str", "run_index": "val", "unmatched": "val"},
+                       modifies=["self.g_save_calls", "self.g_saved_run_dir", "self.g_saved_identity", "self.g_saved_paths_name"],
+                       ensures={"logged": "self.g_save_calls == old(self.g_save_calls) + 1 and self.g_saved_run_dir == run_dir and self.g_saved_identity == identity and "
+                                          "self.g_saved_paths_name == paths_name"},
+                       returns="none", class_fields=CF, assumptions=["ResultSerializer._save writes the member's files under run_dir/identity (own contract in C09: _save[json_files], get_instance_dir)"]))
+    cs.append(Contract(target="csvpath/matching/util/runtime_data_collector.py::RuntimeDataCollector.collect", interface=True,
+                       types={"csvpath": "val", "runtime": "val", "local": "val"}, returns="none", class_fields=CF,
+                       assumptions=["RuntimeDataCollector.collect fills the runtime-data dict (counters, headers, timings) and touches nothing else"]))
+    cs.append(Contract(target=f"{RS}::ResultSerializer.get_run_dir_name_from_datetime", interface=True, types={"dt": "val"}, returns="str",
+                       ensures={"name": "result == ufun_str('run_dir_name', dt)"}, class_fields=CF,
+                       assumptions=["get_run_dir_name_from_datetime formats the run's start time (strftime; its format string is checked by the C10 frame scans)"]))
+    cs.append(Contract(target="csvpath/managers/results/result.py::Result.identity_or_index", interface=True, types={}, returns="str",
+                       ensures={"id": "result == self.g_identity_or_index"}, class_fields=CF, assumptions=["Result.identity_or_index is the csvpath's identity, or its index in the group"]))
+    cs.append(Contract(target="csvpath/managers/results/result.py::Result.lines", interface=True, types={}, returns="val", ensures={}, class_fields=CF,
+                       assumptions=["Result.lines is the member's line spooler or list"]))
+    cs.append(Contract(target="csvpath/managers/results/result.py::Result.variables", interface=True, types={}, returns="val", ensures={}, class_fields=CF,
+                       assumptions=["Result.variables is the csvpath's variables dict"]))
+    cs.append(Contract(
+        target=f"{RS}::ResultSerializer.save_result", types={"result": "obj:Result", "result._csvpath": "obj:CsvPath", "result._csvpath.metadata": "val"},
+        modifies=["self.result", "self.g_save_calls", "self.g_saved_run_dir", "self.g_saved_identity", "self.g_saved_paths_name"],
+        ensures={"one_save_under_the_runs_own_directory": "self.g_save_calls == old(self.g_save_calls) + 1 and self.g_saved_run_dir == result._run_dir",
+                 "in_the_members_own_subdirectory": "self.g_saved_identity == result.g_identity_or_index and self.g_saved_paths_name == result._paths_name"},
+        callee_variants={"ResultSerializer._save": "logged"}, inline=["Result.get_printouts"],
+        class_fields=CF, macros=MACROS, returns="none", native={"skip": True},
+        property_clauses={"one_save_under_the_runs_own_directory": "C10,C09", "in_the_members_own_subdirectory": "C10,C09"},
+        doc={"one_save_under_the_runs_own_directory": "C10: 'Each named-paths run ... writes under ... a run directory no earlier run used' -- the directory get_run_dir chose at the start "
+                                                      "of the run (Result.run_dir), not one recomputed from the clock or the names at save time"}))
     return cs
 
 
